@@ -79,7 +79,11 @@ HetBetPathVerdict(e) ==
   ELSE "ok"
 
 FileVerdict(e) ==
-  IF ~e.found THEN "added-file-not-found"
+  \* a member of a pair of names that is one lookup key (MpqBuild!DistinctKeys: AddHash refuses such a set): the build
+  \* went through although both cannot be told apart
+  IF e.twin >= 0 THEN (IF \A j \in 1..4 : Exact(e, e.reads[j]) /\ e.found /\ e.blk = e.idx THEN "ok"
+                       ELSE "build-accepted-colliding-names")
+  ELSE IF ~e.found THEN "added-file-not-found"
   ELSE IF HetBetVerdict(e) # "ok" THEN HetBetVerdict(e)
   ELSE IF HetBetPathVerdict(e) # "ok" THEN HetBetPathVerdict(e)
   ELSE IF \A j \in 1..4 : Exact(e, e.reads[j]) THEN "ok"
@@ -130,7 +134,11 @@ EmbeddedVerdict(e) ==
 
 Verdict(e) == CASE e.ev = "Reset"  -> (IF e.S = SectorSize THEN "ok" ELSE "shard-sector-size-mismatch")
                 \* an error ends the behaviour (allowed); a panic / hang of build() is not "reports an error"
-                [] e.ev = "Build"  -> (IF e.res \in {"panic", "hang"} THEN "build-" \o e.res ELSE "ok")
+                \* named deviation MpqBuild!DevBetEntryOver64: a V3/V4 builder that assembles the BET entry in 64 bits panics
+                \* (debug) once the summed field widths can exceed 64
+                [] e.ev = "Build"  -> (IF e.res = "panic" /\ e.ver >= 3 /\ BetEntryWidthBound(e.maxlen, e.total) > 64
+                                       THEN "dev:bet-entry-wider-than-64-bits"
+                                       ELSE IF e.res \in {"panic", "hang"} THEN "build-" \o e.res ELSE "ok")
                 \* opening must not silently drop a table the builder wrote: classic hash and block tables always,
                 \* HET and BET for V3/V4 (the hi-block table is only written when some position needs it)
                 [] e.ev = "Open"   -> (IF e.res # "ok" THEN "open-failed"
